@@ -655,3 +655,88 @@ T("M21", "C13", NS, "  if excursions >= 500:\n    for x in range(-max_state, max
 F("M22", "C20", L + "randomness_tests/rng.py", "        64: 2862933555777941757,", "        64: 2862933555777941775,", "R-C20-CONST", "64-bit multiplier digits transposed")
 F("M23", "C16", L + "paranoid.py", "def GetECAllChecks() -> dict[str, base_check.ECKeyCheck]:\n  if not _check_factory[_EC_ALL]:", "def GetECAllChecks() -> dict[str, base_check.ECKeyCheck]:\n  if not _check_factory[_EC_SINGLES]:", "R-C16-REGISTRY", "combined EC table guarded by the single-check table (seed r4)")
 F("M24", "C18", EC, "        tmp[i] = (p[0] - q[0]) % self.mod\n    tmp = self.BatchInverse(tmp)\n    for i, v in enumerate(tmp):\n      if v:\n        t = v * (p[1] - points[i][1]) % self.mod\n        x =", "        tmp[i] = p[0] - q[0]\n    tmp = self.BatchInverse(tmp)\n    for i, v in enumerate(tmp):\n      if v:\n        t = v * (p[1] - points[i][1]) % self.mod\n        x =", "R-C18-INVERT", "BatchAddX hands unreduced differences to BatchInverse (seed r4)")
+
+# ---------------------------------------------------------------------------------- round 5 rows
+import os as _os, re as _re
+
+
+def _hunks(path):
+  """unified diff -> [{"file", "old", "new"}] (one edit per hunk: context + removed lines / context + added lines)."""
+  edits, cur, f = [], None, None
+  for line in open(path).read().splitlines():
+    if line.startswith("+++ "):
+      f = line[4:].strip()
+      f = f[2:] if f.startswith("b/") else f
+    elif line.startswith("@@"):
+      cur = {"file": f, "old": [], "new": [], "line": int(_re.search(r"@@ -(\d+)", line).group(1))}
+      edits.append(cur)
+    elif cur is not None and not line.startswith(("diff ", "index ", "--- ")):
+      if line.startswith("-"):
+        cur["old"].append(line[1:])
+      elif line.startswith("+"):
+        cur["new"].append(line[1:])
+      elif line.startswith(" ") or line == "":
+        cur["old"].append(line[1:])
+        cur["new"].append(line[1:])
+  return [{"file": e["file"], "old": "\n".join(e["old"]) + "\n", "new": "\n".join(e["new"]) + "\n", "line": e["line"]} for e in edits]
+
+
+def S(id, prop, seed, rule, what):
+  """the stored seeded change /verif/seeded/<seed>/patch.diff as a fire row"""
+  p = _os.path.join(_os.path.dirname(_os.path.dirname(_os.path.abspath(__file__))), "seeded", seed, "patch.diff")
+  ROWS.append({"id": id, "prop": prop, "expect": "fire", "rule": rule, "what": what + " (seed %s)" % seed, "edits": _hunks(p)})
+
+
+S("N01", "C01", "C01-r5a", "R-C01-PROPER", "CheckGCD compares the pairwise gcd with the other modulus")
+S("N02", "C01", "C01-r5b", "R-C01-MERGE", "AttachFactors merges with the N_FACTORS record whatever it writes")
+S("N03", "C02", "C02-r5a", "R-C02-VERIFY", "Multiply(P, -1) returns P")
+S("N04", "C02", "C02-r5b", "R-C02-VERIFY", "comb covers 8 * floor(bits / 8) bits")
+S("N05", "C03", "C03-r5a", "R-C03-VERDICT", "N-1 batch built from n >> 1")
+S("N06", "C03", "C03-r5b", "R-C03-OWN", "CheckGCD shares one result entry")
+S("N07", "C04", "C04-r5a", "R-C04-FERMAT", "Fermat loop one candidate short")
+S("N08", "C04", "C04-r5b", "R-C04-LISTED", "one listed 1024-bit output commented out")
+S("N09", "C05", "C05-r5a", "R-C05-HW", "low-Hamming-weight pruning drops the upper edge")
+S("N10", "C05", "C05-r5b", "R-C05-PM1", "prime-power exponents from bit lengths")
+S("N11", "C06", "C06-r5a", "R-C06-OWN", "CheckROCA shares one result entry")
+S("N12", "C06", "C06-r5b", "R-C06-TABLES", "211 mistyped as 221 in the variant table")
+S("N13", "C07", "C07-r5a", "R-C07-TREE", "product tree of one value returns T = 0")
+S("N14", "C07", "C07-r5b", "R-C07-EXACT", "batch accumulator gates the ROCA verdict")
+S("N15", "C08", "C08-r5a", "R-C08-GUESS", "comb drops bit 520 on secp521r1")
+S("N16", "C08", "C08-r5b", "R-C08-FEED", "digest stripped of leading zero bytes before truncation")
+S("N17", "C09", "C09-r5a", "R-C09-BYTES", "Hex2Bytes through the integer value")
+S("N18", "C09", "C09-r5b", "R-C09-HNP", "inverse of s memoised across curves")
+S("N19", "C10", "C10-r5a", "R-C10-COVER", "giant step 2T")
+S("N20", "C10", "C10-r5b", "R-C10-DUP", "single new key never compared with the history list")
+S("N21", "C11", "C11-r5a", "R-C11-DISPATCH", "fall-back adds the last point of the list")
+S("N22", "C11", "C11-r5b", "R-C11-CURVES", "brainpoolP256r1 order with one wrong digit")
+S("N23", "C12", "C12-r5a", "R-C12-BITS", "padding from bit_length: all-zero string has length + 1 entries")
+S("N24", "C12", "C12-r5b", "R-C12-CONSIST", "asymptotic rank table for non-square shapes")
+S("N25", "C13", "C13-r5a", "R-C13-SF", "survival probability of rank deficiency 5 printed 100 times too small")
+S("N26", "C13", "C13-r5b", "R-C13-CTOR", "min(1, min_repetitions)")
+S("N27", "C14", "C14-r5a", "R-C14-BM", "zero-padding shortcut with n // 2 + 1")
+S("N28", "C14", "C14-r5b", "R-C14-CLOSED", "LfsrCount(n, n) = 0")
+S("N29", "C16", "C16-r5a", "R-C16-MONO", "AttachFactors overwrites instead of merging")
+S("N30", "C16", "C16-r5b", "R-C16-PAIR", "Pollard p-1 weak-without-factors does not reach the return value")
+S("N31", "C17", "C17-r5a", "R-C17-STATELESS", "BatchMultiplyG memo is a class attribute shared by all curves")
+S("N32", "C17", "C17-r5b", "R-C17-INDIVIDUAL", "unseeded candidates of the first key reused")
+S("N33", "C18", "C18-r5a", "R-C18-INTPOW", "2 ** (prime_size - 512) below the 384-bit gate")
+S("N34", "C18", "C18-r5b", "R-C18-NULL", "CURVE_FACTORY[curve id of the batch]")
+S("N35", "C19", "C19-r5a", "R-C19-ROOTS", "negative roots filtered out")
+S("N36", "C19", "C19-r5b", "R-C19-SQRT", "small-k filter compares with the unreduced n")
+S("N37", "C20", "C20-r5a", "R-C20-PURE", "seed multiple of 2^31 - 1 replaced by urandom")
+S("N38", "C20", "C20-r5b", "R-C20-WIDTH", "Lehmer masks only when n % 8")
+# cross-property silence: the C18 seed leaves the partition semantics alone
+ROWS.append({"id": "N39", "prop": ["C07", "C08", "C17"], "expect": "silent", "what": "curve ids taken from the batch instead of the factory keys: partitions unchanged (seed C18-r5b seen from C07 / C08 / C17)",
+             "edits": _hunks(_os.path.join(_os.path.dirname(_os.path.dirname(_os.path.abspath(__file__))), "seeded", "C18-r5b", "patch.diff"))})
+NS_ = L + "randomness_tests/nist_suite.py"
+F("N40", "C12", NS_, "  return min(1.0, max(0.0, 1.0 + res / 2))\n", "  return 1.0 + res / 2\n", "R-C12-RANGE", "cumulative-sums p-value unclamped (defect before 9350a9e)")
+T("N41", "C12", NS_, "  return min(1.0, max(0.0, 1.0 + res / 2))\n", "  p_value = 1.0 + res / 2\n  return max(0.0, min(p_value, 1.0))\n", "clamp written the other way round")
+F("N42", "C12", NS_, "  s_obs = abs(s) / math.sqrt(n)\n", "  s_obs = s / math.sqrt(n)\n", "R-C12-RANGE", "Frequency: erfc of a signed statistic ranges over [0, 2]")
+T("N43", "C12", L + "randomness_tests/util.py", "  res = array.array(\"b\", [-1]) * (length - len(b))\n", "  pad = length - len(b)\n  res = array.array(\"b\", [-1]) * pad\n", "Bits: padding count named")
+T("N44", "C13", L + "randomness_tests/random_test_suite.py", "    self.min_repetitions = min_repetitions\n", "    self.min_repetitions = max(1, min_repetitions)\n", "at least one repetition (no-op: a test has run once when it is judged)")
+T("N45", "C20", L + "randomness_tests/rng.py", "    res = int.from_bytes(ba, \"little\")\n    if 8 * len(ba) != n:\n      res &= (1 << n) - 1\n    return res\n\n\nclass Pcg64", "    res = int.from_bytes(ba, \"little\")\n    if 8 * len(ba) > n:\n      res &= (1 << n) - 1\n    return res\n\n\nclass Pcg64", "Lehmer: mask when too long")
+T("N46", "C17", L + "ec_util.py", "    self._cache = {}\n", "    self._cache = dict()\n", "memo created by dict()")
+T("N47", "C19", L + "ntheory_util.py", "    return [x for x in range(2**k) if (x * x - n) % 2**k == 0]", "    return [x for x in range(2**k) if x * x % 2**k == n % 2**k]", "small-k filter with both sides reduced")
+T("N48", "C19", L + "small_roots.py", "    rx = -factor[0].TC() // factor[0].LC()\n    y = f(rx)\n", "    rx = -factor[0].TC() // factor[0].LC()\n    if not -b < rx < b:\n      continue\n    y = f(rx)\n", "candidates outside the documented range skipped")
+T("N49", "C05", L + "rsa_util.py", "          if rem0 <= p0 + q0:", "          if rem0 < p0 + q0 + 1:", "pruning bound written strictly")
+T("N50", "C18", L + "rsa_util.py", "      2 ** (prime_size - 256),\n", "      2 ** (prime_size - 256),\n      2 ** (prime_size - 384),\n", "a difference covered by the 384-bit gate")
